@@ -179,3 +179,8 @@ def check(case, ctx):
 
 SUBS = [Sub("dedup", check, strategy=case, quick=14000, thorough=200000)]
 KNOWN = {}
+
+# second use of one view object after its sources were edited (shared sub-check, see pv/reuse.py)
+from pv import reuse  # noqa: E402
+SUBS.append(reuse.sub(ID))
+RULE += reuse.RULE
